@@ -199,7 +199,7 @@ def _seq_eq(a, b):
     return _sym.mkbool(a == b)
 
 
-@oset("socket._enqueue_message.any-length", ["C16", "C01", "C02"], [ENQ], timeout_ms=4000,
+@oset("socket._enqueue_message.any-length", ["C16", "C01", "C02"], [ENQ], timeout_ms=300,
       assumptions=_ENQ_ASSUME + ["queue entries are identified by ids; deque indexing / del / append as sequence operations",
                                  "`for i in reversed(range(n))` visits n-1, ..., 0 (Python semantics of the loop header)"])
 def enqueue_unbounded(h):
